@@ -3,16 +3,16 @@ PROPERTY = "C45"
 META = {
     "category": "proof",
     "technique": "contract-based deductive verification of sorted_division_locations (loop invariant over the real AST, bisect/sorted models), z3; bounded native runs of the extracted source",
-    "text": "Proof for every sorted sequence (values modelled as Int: only <, <=, == are used) and every npartitions/chunksize: locations strictly increase from 0 to len(seq), each division is the value at its location, every interior location is a first occurrence (equal values never straddle a boundary), npartitions is met exactly whenever the sequence has at least that many distinct values (invariants: last location = ideal position + drift, the loop ends exactly when npartitions divisions exist, enough distinct values remain for the divisions still owed; nonlinear step isolated in lemma_ideal_mono), no IndexError/None dereference. Termination is bounded (exhaustive to length 8 over 4 letters + seeded run-length families); quantile-based divisions (NumPy) are bounded only.",
+    "text": "Proof for every sorted sequence (values modelled as Int: only <, <=, == are used) and every npartitions/chunksize: locations strictly increase from 0 to len(seq), each division is the value at its location, every interior location is a first occurrence (equal values never straddle a boundary), npartitions is met exactly whenever the sequence has at least that many distinct values (invariants: last location = ideal position + drift, the loop ends exactly when npartitions divisions exist, enough distinct values remain for the divisions still owed; nonlinear step isolated in lemma_ideal_mono), no IndexError/None dereference, and the loop terminates (lexicographic measure: distance of the last location from the end, then distance of the probe position from the end). Quantile-based divisions (NumPy) are bounded only.",
     "note": "Trusted: VC generator, z3; builtin models bisect_left, sorted(set(.)), list.append; `tolist` identity. dask.dataframe cannot be imported (pyarrow missing): verified text = AST of the source file, E2 exec()s the extracted function. partitionquantiles (NumPy/pandas percentiles) is NOT proved: bounded native runs of process_val_weights only.",
     "design_ref": "DESIGN.md §5.11",
 }
 MODULES = ["contracts.lemmas", "contracts.dfio"]
 ONLY = {"contracts.lemmas": ["lemma_divmod", "lemma_ideal_mono"]}
 LEVEL = "proof"
-EXPLANATION = "loop-invariant proof of sorted_division_locations (all five clauses of the statement, including exact npartitions) + bounded stand-ins for termination and quantile divisions"
+EXPLANATION = "loop-invariant proof of sorted_division_locations (all five clauses of the statement, including exact npartitions) + total correctness of sorted_division_locations; bounded stand-in for quantile divisions"
 TRUSTED = ["VC generator /verif/vf", "z3 5.1/4.8.12", "models: bisect.bisect_left, sorted(set(xs)), tolist"]
-ASSUMPTIONS = ["index values totally ordered (modelled as Int)", "termination of the while loop not proved"]
+ASSUMPTIONS = ["index values totally ordered (modelled as Int)"]
 NATIVE_COVERS = {"sorted_division_locations": ["sorted_division_locations"], "sorted_division_locations.chunksizes": ["sorted_division_locations"]}
 
 
@@ -29,4 +29,4 @@ def replay_native(native):
 
 
 # thorough tier: deliberate edits that must turn an obligation red (applied to a scratch copy, never to /repo)
-MUTATIONS = [('contracts.dfio', 'sorted_division_locations', 'dask/dataframe/io/io.py', '        enforce_exact = npartitions and len(offsets) >= npartitions', '        enforce_exact = npartitions and npartitions <= len(offsets) < 2 * npartitions'), ('contracts.dfio', 'sorted_division_locations', 'dask/dataframe/io/io.py', '                ind += 1\n', '                ind += 1\n                drift = 0\n'), ('contracts.dfio', 'sorted_division_locations', 'dask/dataframe/io/io.py', '            pos = int(offsets[ind])', '            pos = i')]
+MUTATIONS = [('contracts.dfio', 'sorted_division_locations', 'dask/dataframe/io/io.py', '            else:\n                i += 1\n', '            else:\n                i += 0\n'), ('contracts.dfio', 'sorted_division_locations', 'dask/dataframe/io/io.py', '        enforce_exact = npartitions and len(offsets) >= npartitions', '        enforce_exact = npartitions and npartitions <= len(offsets) < 2 * npartitions'), ('contracts.dfio', 'sorted_division_locations', 'dask/dataframe/io/io.py', '                ind += 1\n', '                ind += 1\n                drift = 0\n'), ('contracts.dfio', 'sorted_division_locations', 'dask/dataframe/io/io.py', '            pos = int(offsets[ind])', '            pos = i')]
